@@ -43,6 +43,7 @@ HIST_RULE = ('evaluations = generated histories (10..60 steps; steps are loop op
 
 def hist(prop, level_text, level_note, extra_assume=(), **kw):
     d = dict(
+        level='fault_enumeration' if prop == 'C15' else 'exploration',
         legs=[dict(name='native', bin='hist', shards=16, timeout=dict(quick=400, thorough=3600))],
         rule=HIST_RULE,
         assumptions=COMMON_ASSUME + list(extra_assume),
@@ -55,17 +56,17 @@ def hist(prop, level_text, level_note, extra_assume=(), **kw):
 
 
 PROPS = {
-    'C01': hist('C01', 'TBD', 'TBD'),
-    'C02': hist('C02', 'TBD', 'TBD'),
-    'C05': hist('C05', 'TBD', 'TBD'),
-    'C06': hist('C06', 'TBD', 'TBD'),
-    'C07': hist('C07', 'TBD', 'TBD'),
-    'C08': hist('C08', 'TBD', 'TBD'),
-    'C09': hist('C09', 'TBD', 'TBD'),
-    'C13': hist('C13', 'TBD', 'TBD'),
-    'C14': hist('C14', 'TBD', 'TBD'),
-    'C15': hist('C15', 'TBD', 'TBD'),
-    'C16': hist('C16', 'TBD', 'TBD'),
+    'C01': hist('C01', "sampled runtime exploration: 24k (quick) / 400k (thorough) generated histories with few slots, immediate slot reuse, stale tokens of every removed source, composites with 1..6 sub-sources (incl. TransientSource children) and all mutations also issued from callbacks; every callback invocation is checked for liveness of its source and for a cause of its own (ping count, head of its channel queue, current timer arming, poll(2) on the sub-source's own fd). Histories, not all of them; <200 reuses per slot.", 'trusted: the harness ledger (a record of what the harness did and what the API returned), the instrumented wrapper source (forwards to the real calloop sources, logs, injects the faults a history asks for), poll(2)//proc/self/fdinfo as ground truth for fd readiness and registrations, the statistics hook; real time only through Instants taken by the harness around calls'),
+    'C02': hist('C02', 'sampled runtime exploration: before every dispatch the set of enabled sources with a pending cause is computed from the ledger and from poll(2) (per interest and trigger mode); after an Ok dispatch each of them must have been invoked unless a callback of that dispatch touched it. Up to 24 (quick) / 96 (thorough) sources per history, all interest x mode combinations; batches above the 1024 poller batch size are exercised only through channel/executor queues in the sched engine.', 'trusted: the harness ledger (a record of what the harness did and what the API returned), the instrumented wrapper source (forwards to the real calloop sources, logs, injects the faults a history asks for), poll(2)//proc/self/fdinfo as ground truth for fd readiness and registrations, the statistics hook; real time only through Instants taken by the harness around calls'),
+    'C05': hist('C05', "sampled runtime exploration with exact Instant comparisons: every arming (insert, ToInstant/ToDuration, set_deadline+update, re-enable) is a ledger record; clauses never_early, event_is_deadline, order, once, first_dispatch, cancel_final and heap-length residue are checked on 8k (quick) / 120k (thorough) histories with past/now/+1..12ms/far/unrepresentable deadlines, actions from other sources' callbacks in the same dispatch and failing sources.", 'trusted: the harness ledger (a record of what the harness did and what the API returned), the instrumented wrapper source (forwards to the real calloop sources, logs, injects the faults a history asks for), poll(2)//proc/self/fdinfo as ground truth for fd readiness and registrations, the statistics hook; real time only through Instants taken by the harness around calls'),
+    'C06': hist('C06', 'sampled runtime exploration of every removal path (outside, self, other, PostAction::Remove, TimeoutAction::Drop, closed ping/channel, ended stream) with immediate re-insertion and later use of every token ever issued; released = into_source_inner succeeds at the end of the dispatch, drop-counting guards on every source, callback, idle and future, slot statistics, loop drop in both orders.', 'trusted: the harness ledger (a record of what the harness did and what the API returned), the instrumented wrapper source (forwards to the real calloop sources, logs, injects the faults a history asks for), poll(2)//proc/self/fdinfo as ground truth for fd readiness and registrations, the statistics hook; real time only through Instants taken by the harness around calls'),
+    'C07': hist('C07', "sampled runtime exploration of disable/enable/update from outside, from the source itself and from other callbacks with the victim's event already collected; silence while disabled, token validity, readiness retained across the gap (via the pending-cause monitor) and no registration call on any other source.", 'trusted: the harness ledger (a record of what the harness did and what the API returned), the instrumented wrapper source (forwards to the real calloop sources, logs, injects the faults a history asks for), poll(2)//proc/self/fdinfo as ground truth for fd readiness and registrations, the statistics hook; real time only through Instants taken by the harness around calls'),
+    'C08': hist('C08', 'sampled runtime exploration of callback programs (up to 6 operations per invocation, nesting depth 3, idle callbacks as runners, adapt_io and insert_idle inside callbacks); any panic unwinding out of a dispatch or operation with a location inside calloop is a violation; effects are judged by the other monitors on the following dispatches. The evidence lists which operation kinds ran inside callbacks.', 'trusted: the harness ledger (a record of what the harness did and what the API returned), the instrumented wrapper source (forwards to the real calloop sources, logs, injects the faults a history asks for), poll(2)//proc/self/fdinfo as ground truth for fd readiness and registrations, the statistics hook; real time only through Instants taken by the harness around calls'),
+    'C09': hist('C09', 'sampled runtime exploration with registration-call accounting: every register/reregister/unregister call the loop makes is attributed to an explicit operation or to the post-action window of the source whose process_events just ended; anything else is a foreign action; the window must contain exactly the calls the effective action asks for; pending action must be clear outside dispatches; all 16 BitOr pairs.', 'trusted: the harness ledger (a record of what the harness did and what the API returned), the instrumented wrapper source (forwards to the real calloop sources, logs, injects the faults a history asks for), poll(2)//proc/self/fdinfo as ground truth for fd readiness and registrations, the statistics hook; real time only through Instants taken by the harness around calls'),
+    'C13': hist('C13', 'sampled runtime exploration of insert_idle/cancel/drop-handle from outside, from source callbacks and from idle callbacks, with dispatches that succeed or fail: once, after sources, insertion order, first Ok dispatch, cancelled never, idle-from-idle next dispatch, no idle on Err.', 'trusted: the harness ledger (a record of what the harness did and what the API returned), the instrumented wrapper source (forwards to the real calloop sources, logs, injects the faults a history asks for), poll(2)//proc/self/fdinfo as ground truth for fd readiness and registrations, the statistics hook; real time only through Instants taken by the harness around calls'),
+    'C14': hist('C14', 'sampled runtime exploration with 1..n lifecycle sources (multi sub-token composites included), synthetic events, failing registrations: per dispatch exactly one before_sleep before the wait and one before_handle_events after it and before any process_events (order taken from yield points WaitPre/WaitPost), iterator contents against the processed events, lifecycle-set size at quiescent points.', 'trusted: the harness ledger (a record of what the harness did and what the API returned), the instrumented wrapper source (forwards to the real calloop sources, logs, injects the faults a history asks for), poll(2)//proc/self/fdinfo as ground truth for fd readiness and registrations, the statistics hook; real time only through Instants taken by the harness around calls'),
+    'C15': hist('C15', 'fault-injection exploration: the n-th register/reregister/unregister of a source fails before or after delegating, fds the poller rejects (regular file, duplicate, closed), failing adapt_io, callbacks returning errors; after each failed call the slot/lifecycle/timer/epoll tables must equal the snapshot taken before it, retries must succeed, later dispatches must not panic and nothing pending may be lost (recovery dispatches after every failing dispatch).', 'trusted: the harness ledger (a record of what the harness did and what the API returned), the instrumented wrapper source (forwards to the real calloop sources, logs, injects the faults a history asks for), poll(2)//proc/self/fdinfo as ground truth for fd readiness and registrations, the statistics hook; real time only through Instants taken by the harness around calls'),
+    'C16': hist('C16', "sampled runtime exploration comparing /proc/self/fdinfo of the loop's epoll fd with the ledger after every step and dispatch: every enabled source's fds with interest/mode mask and the source's key, nothing else; released fds (removed Generic, unwrapped adapter) are inserted again and must be accepted. Histories with a registration failure are not judged (the property excludes them).", 'trusted: the harness ledger (a record of what the harness did and what the API returned), the instrumented wrapper source (forwards to the real calloop sources, logs, injects the faults a history asks for), poll(2)//proc/self/fdinfo as ground truth for fd readiness and registrations, the statistics hook; real time only through Instants taken by the harness around calls'),
     'C18': dict(
         legs=[dict(name='native', bin='trans', shards=16, timeout=dict(quick=300, thorough=3000))],
         rule='evaluations = protocol-conforming operation sequences executed against the real TransientSource '
